@@ -75,7 +75,16 @@ func (f *InputField) Resolve(field *Field, args map[string]interface{}) (result 
 	case typeStr:
 		result = f.Type
 	case defaultValueStr:
-		result = f.Default
+		// defaultValue is a String whatever the type of the default is:
+		// a string as it is, anything else (numbers, enum values, lists,
+		// input objects) as it is written in a schema.
+		switch d := f.Default.(type) {
+		case nil:
+		case string:
+			result = d
+		default:
+			result = valueString(d)
+		}
 	}
 	return
 }
